@@ -523,6 +523,7 @@ int main(int argc, char **argv)
 	nmut_plan = atoi(getenv("LF_NMUT"));
     if (argc >= 3 && strcmp(argv[1], "count") == 0) {
 	printf("%ld\n", trunc_total(strcmp(argv[2], "truncall") == 0));
+	fflush(stdout);	/* LeakSanitizer may _exit before stdio is flushed */
 	return 0;
     }
     if (argc >= 3 && strcmp(argv[1], "dump") == 0) {
